@@ -18,6 +18,9 @@ pub struct Step<'a> {
     pub history: &'a [String],
     pub seed: u64,
     pub sid: u64,
+    /// the candidate list as the getters report it before / after (None = no list open), see `CandView`
+    pub cand_pre: Option<&'a CandView>,
+    pub cand_post: Option<&'a CandView>,
 }
 
 impl Step<'_> {
@@ -65,4 +68,133 @@ pub fn syl_is_empty(snap: &str) -> bool {
 /// option `i` (struct field order of EditorOptions)
 pub fn option(snap: &str, i: usize) -> usize {
     sections(snap)[4].split(' ').nth(i).unwrap().parse().unwrap()
+}
+
+// ------------------------------------------------------------------ candidate lists (C07)
+
+/// What the public getters answer while a candidate list is open (queried after the operation,
+/// under `catch_unwind`), plus an answer computed independently of the editor for phrase lists.
+#[derive(Clone, Debug, Default)]
+pub struct CandView {
+    /// a getter panicked (nothing else is meaningful then)
+    pub panicked: bool,
+    /// `all_candidates()`
+    pub all: Vec<String>,
+    /// `paginated_candidates()`
+    pub paginated: Vec<String>,
+    /// `total_page()`
+    pub total_page: usize,
+    /// `current_page_no()`
+    pub page_no: usize,
+    /// `editor_options().candidates_per_page`
+    pub per: usize,
+    /// phrase lists only: the dictionaries asked directly about the highlighted symbols
+    pub expect: Option<Expect>,
+}
+
+#[derive(Clone, Debug, Default)]
+pub struct Expect {
+    /// every symbol of `begin..end` is a syllable (otherwise `own`/`alt` are for the leading syllables only)
+    pub all_syllables: bool,
+    /// number of symbols in the highlighted range
+    pub range_len: usize,
+    /// the leading syllables of the range (= the whole range when `all_syllables`)
+    pub key: Vec<chewing::zhuyin::Syllable>,
+    /// every phrase a system layer or the user layer holds for exactly these syllables
+    pub own: Vec<String>,
+    /// one-syllable ranges: the phrases held for the layout's alternative syllables
+    pub alt: Vec<String>,
+    /// a strictly longer range on the same side of the cursor, inside the break points `init` respects,
+    /// for which a layer holds a phrase (legitimate after Down/Space cycling, not right after opening)
+    pub longer: Option<(usize, usize)>,
+}
+
+/// the state section of a snapshot, decoded for an open list
+#[derive(Clone, Debug, PartialEq)]
+pub struct SelInfo {
+    pub page: usize,
+    /// `I` insert / `R` replace
+    pub action: char,
+    /// `P` phrase / `M` symbol table / `X` special symbols
+    pub kind: char,
+    pub begin: usize,
+    pub end: usize,
+    pub forward: bool,
+    pub orig: usize,
+    /// `M`: the sub-menu cursor; `X`: the symbol token
+    pub detail: String,
+}
+
+pub fn sel_info(snap: &str) -> Option<SelInfo> {
+    let t: Vec<&str> = sections(snap)[0].split(' ').collect();
+    if t[0] != "S" {
+        return None;
+    }
+    let mut s = SelInfo {
+        page: t[1].parse().unwrap(),
+        action: t[2].chars().next().unwrap(),
+        kind: t[3].chars().next().unwrap(),
+        begin: 0,
+        end: 0,
+        forward: false,
+        orig: 0,
+        detail: String::new(),
+    };
+    match s.kind {
+        'P' => {
+            s.begin = t[4].parse().unwrap();
+            s.end = t[5].parse().unwrap();
+            s.forward = t[6] == "1";
+            s.orig = t[7].parse().unwrap();
+        }
+        _ => s.detail = t[4].to_string(),
+    }
+    Some(s)
+}
+
+/// what identifies *which* list is open (a change of it must reset the page)
+pub fn sel_target(s: &SelInfo) -> (char, usize, usize, String) {
+    (s.kind, s.begin, s.end, s.detail.clone())
+}
+
+/// selections of the pre-edit buffer: (start, end, is_phrase, text as hex token), sorted
+pub fn selections(snap: &str) -> Vec<(usize, usize, bool, String)> {
+    let t = com_tokens(snap);
+    let nstack: usize = t[1].parse().unwrap();
+    let n: usize = t[2 + nstack].parse().unwrap();
+    let mut i = 3 + nstack + n;
+    let ngap: usize = t[i].parse().unwrap();
+    i += 1 + ngap;
+    let nsel: usize = t[i].parse().unwrap();
+    i += 1;
+    let mut out = vec![];
+    for k in 0..nsel {
+        let b = i + 4 * k;
+        out.push((t[b].parse().unwrap(), t[b + 1].parse().unwrap(), t[b + 2] == "1", t[b + 3].to_string()));
+    }
+    out.sort();
+    out
+}
+
+/// gap kinds of the pre-edit buffer (`B` begin, `K` break, `G` glue, `N` normal), one per symbol
+pub fn gaps(snap: &str) -> Vec<char> {
+    let t = com_tokens(snap);
+    let nstack: usize = t[1].parse().unwrap();
+    let n: usize = t[2 + nstack].parse().unwrap();
+    let i = 3 + nstack + n;
+    let ngap: usize = t[i].parse().unwrap();
+    t[i + 1..i + 1 + ngap].iter().map(|g| g.chars().next().unwrap()).collect()
+}
+
+pub fn stack_len(snap: &str) -> usize {
+    com_tokens(snap)[1].parse().unwrap()
+}
+
+/// the getters' answers as one transcript token: `tp=<pages>,pn=<page>,all=<hex>/<hex>…,pag=<hex>/…`
+pub fn cand_token(c: &CandView) -> String {
+    if c.panicked {
+        return "panic".into();
+    }
+    let join = |v: &Vec<String>| v.iter().map(|s| vharness::hx(s)).collect::<Vec<_>>().join("/");
+    format!("tp={},pn={},all={},pag={}", c.total_page, c.page_no, join(&c.all), join(&c.paginated))
 }
